@@ -36,3 +36,17 @@ brk("c02-no-ueb-hash-check", "C02", "immutable/downloader/node.py",
 brk("c46-active-segment-not-cleared", "C46", "immutable/downloader/node.py",
     "                # this catches failures in decode or ciphertext hash\n                self._active_segment = None\n",
     "                # this catches failures in decode or ciphertext hash\n")
+brk("c46-overrun-header-not-needed", "C46", "immutable/downloader/share.py",
+    "            want_it.add(0, 1024)\n            # fall through", "            want_it.add(0, 1024)\n            return\n            # fall through")
+# ---- C03
+brk("c03-no-diversity-escalation", "C03", "immutable/downloader/fetcher.py",
+    "                # don't pull too much from a single server\n                want_more_diversity = True\n",
+    "                # don't pull too much from a single server\n                want_more_diversity = False\n")
+brk("c03-no-more-shares-while-pending", "C03", "immutable/downloader/finder.py",
+    "        if self.pending_requests:\n            # no server, but there are still requests in flight: maybe one of\n            # them will make progress\n            return\n",
+    "")
+brk("c03-corrupt-block-kills-fetch", "C03", "immutable/downloader/fetcher.py",
+    "        if state in (COMPLETE, CORRUPT, DEAD, BADSEGNUM):\n            self._share_observers.pop(share, None)",
+    "        if state is CORRUPT:\n            self._no_more_shares = True\n        if state in (COMPLETE, CORRUPT, DEAD, BADSEGNUM):\n            self._share_observers.pop(share, None)")
+brk("c03-k-minus-one-enough", "C03", "immutable/downloader/fetcher.py",
+    "        if len(set(self._blocks.keys())) >= k:\n            # yay!", "        if len(set(self._blocks.keys())) >= k and False:\n            # yay!")
